@@ -364,6 +364,21 @@ func c19ManyKeys(rep *report.R, n int) {
 	if p := len(u.Pending()); p != n {
 		rep.Note(fmt.Sprintf("many-keys: %d refreshes pending for %d keys", p, n))
 	}
+	// every key's refresh is in flight now; a second hit on each key is answered at once as well and starts no further refresh,
+	// however many reservations the single-flight table holds at this moment
+	pendBefore := len(u.Pending())
+	for i := 0; i < n; i++ {
+		before := len(sc.Responses())
+		sc.SendMsg(refdns.Query(uint16(2000+i), refdns.N(fmt.Sprintf("k%d", i), "example", "test"), 1, 1))
+		wait()
+		if len(sc.Responses()) != before+1 {
+			fail("hit-delayed", fmt.Sprintf("second hit #%d (of %d questions whose refreshes are all pending) was not answered at once", i, n))
+			return
+		}
+	}
+	if p := len(u.Pending()); p > pendBefore {
+		fail("concurrent-refreshes", fmt.Sprintf("with %d refreshes in flight (one per key) a second hit on every key raised the upstream queries in flight to %d: a key got a second refresh while its first was still running", pendBefore, p))
+	}
 	v.Close()
 	for _, x := range own.Audit() {
 		fail("ownership", x)
